@@ -18,6 +18,7 @@ import sandboxequiv_gen as sg               # noqa: E402
 import sandboxequiv_limits as sl            # noqa: E402
 import sandboxequiv_compile as scomp        # noqa: E402
 import sandboxequiv_history as shist        # noqa: E402
+import sandboxequiv_api as sapi             # noqa: E402
 import sandboxequiv_ref as ref              # noqa: E402
 import translate_sandboxequiv as tr         # noqa: E402
 from translate_sandboxequiv import translate  # noqa: E402
@@ -48,7 +49,10 @@ NOTES = [
     "the configuration the theorems are instantiated with (which branch does what, constants) is measured on every run "
     "by probing the individual mechanism functions of the tree under test (translate_sandboxequiv.py)",
     "not modelled: globals a called function rebinds itself, instructor-supplied input functions (callable inputs), "
-    "threaded execution, tracing, imports of student modules, output line splitting (C15), what the feedback says (C04)",
+    "threaded execution, tracing, imports of student modules, what the feedback says (C04); the merge of function_kwargs "
+    "into the keyword arguments and the cut of the printed text into Sandbox.output lines are not in the Lean model: they "
+    "are compared differentially (call correspondence fed through function_kwargs; line view against plain CPython's text "
+    "cut at its newlines)",
     "where CPython gives up on runaway recursion depends on the stack depth: only the kind of exception is compared",
     "the direct counterpart of call(f, *args, target=t) is the statement `t = f(*args)` (call() is documented to "
     "assign its result to the target, `_` by default)",
@@ -73,8 +77,18 @@ def corpus_cases():
 def generated_cases(rng, n):
     # the depths the generator's call chains use are the sizes around the limit constants of the tree under test
     sg.G.DEPTHS = sorted(sl.boundary_sizes(sl.limit_constants(), 80)) or sg.G.DEPTHS
-    return [sg.gen_case(rng, rng.choice(["small", "small", "large"]), exhausted_ok=rng.random() < 0.08)
-            for _ in range(n)]
+    # student parameters named like the parameters of the grader's own call() (read from the tree under test)
+    sg.G.WRAPPER_NAMES = sapi.reserved_names() + sapi.other_wrapper_names()
+    cases = [sg.gen_case(rng, rng.choice(["small", "small", "large"]), exhausted_ok=rng.random() < 0.08)
+             for _ in range(n)]
+    # the same cases through the other public spellings (function_kwargs, get_function, explicit report, the ways of
+    # queueing the inputs and starting the run)
+    for k, v in sapi.respell(cases, rng).items():
+        RESPELLED[k] = RESPELLED.get(k, 0) + v
+    return cases
+
+
+RESPELLED = {}
 
 
 # --------------------------------------------------------------------------
@@ -280,9 +294,22 @@ def make_call_case(rng):
     kwargs = {}
     for k in rng.sample(["key", "mode", "n", "end"], rng.choice([0, 0, 1, 2])):
         kwargs[k] = rng.choice(CALL_ARGS)
-    return {"extras": extras, "fn": fn, "args": args, "kwargs": kwargs,
+    # keyword arguments of the student's function handed over through function_kwargs= (for a name that is one of
+    # call()'s own parameters - read from the tree under test - the only way); direct ones first: that is the order
+    # kwargs.update(function_kwargs) gives
+    reserved = sapi.reserved_names()
+    for k in rng.sample(reserved, rng.choice([0, 0, 1, 2])):
+        kwargs[k] = rng.choice(CALL_ARGS)
+    fkw = [k for k in kwargs if k in reserved or rng.random() < 0.3]
+    kwargs = dict([(k, v) for k, v in kwargs.items() if k not in fkw] + [(k, kwargs[k]) for k in fkw])
+    case = {"extras": extras, "fn": fn, "args": args, "kwargs": kwargs,
             "target": rng.choice(["_", "_", "res", "answer", "_temporary_target"]),
-            "api": rng.choice(["commands", "sandbox"]), "default_target": rng.random() < 0.4}
+            "api": rng.choice(["commands", "sandbox", "commands+report"]), "default_target": rng.random() < 0.4}
+    if fkw or rng.random() < 0.1:
+        case["fkw"] = fkw
+    if rng.random() < 0.15:
+        case["via"] = "get_function"
+    return case
 
 
 def build_call_case(case):
@@ -297,8 +324,15 @@ def build_call_case(case):
     code += "some_var = [4, 5]\n"
     for k, v in case["extras"].items():
         code += "%s = %s\n" % (k, v)
-    contextualize_report(Submission(files={"answer.py": code}, main_file="answer.py"))
-    sb = MAIN_REPORT["sandbox"]["sandbox"]
+    if case["api"] == "commands+report":
+        from pedal.core.report import Report
+        report = case["_report"] = Report()
+        contextualize_report(Submission(files={"answer.py": sc.DECOY_CODE}, main_file="answer.py"))
+        contextualize_report(Submission(files={"answer.py": code}, main_file="answer.py"), report=report)
+        sb = report["sandbox"]["sandbox"]
+    else:
+        contextualize_report(Submission(files={"answer.py": code}, main_file="answer.py"))
+        sb = MAIN_REPORT["sandbox"]["sandbox"]
     sb.run()
     if sb.exception is not None:
         raise RuntimeError("call scenario did not run: %r" % (sb.exception,))
@@ -406,6 +440,26 @@ def call_request(case, sb, args, kwargs):
     return " ".join(toks), {"ids": ids, "entries": entries, "kw_entries": kw_entries, "fn_id": fn_id}
 
 
+def same_call_text(a, b):
+    """The generated call, compared as CPython reads it: same function, same positional arguments in order, same keyword
+    arguments - in ANY order (whether the direct keywords or those of function_kwargs come first is not observable by
+    the function called)."""
+    if a == b or a is None or b is None:
+        return a == b
+    import ast
+    try:
+        ta, tb = ast.parse(a), ast.parse(b)
+    except (SyntaxError, ValueError):
+        return False
+
+    def norm(tree):
+        for node in ast.walk(tree):
+            if isinstance(node, ast.Call):
+                node.keywords.sort(key=lambda k: k.arg or "")
+        return ast.dump(tree)
+    return norm(ta) == norm(tb)
+
+
 def correspond_call(rng, tier, driver, res, n):
     from pedal.sandbox import commands
     cases = [make_call_case(rng) for _ in range(n)]
@@ -417,11 +471,19 @@ def correspond_call(rng, tier, driver, res, n):
         seen = sb.data["seen"]
         del seen[:]
         opts = {} if (case["default_target"] and case["target"] == "_") else {"target": case["target"]}
+        direct = {k: v for k, v in kwargs.items() if k not in case.get("fkw", ())}
+        if "fkw" in case:
+            opts["function_kwargs"] = {k: kwargs[k] for k in case["fkw"]}
+            res.count("call:function_kwargs=%d" % min(2, len(case["fkw"])))
+        report_kw = {"report": case.pop("_report")} if case["api"] == "commands+report" else {}
         try:
-            if case["api"] == "commands":
-                r = commands.call(case["fn"], *args, **opts, **kwargs)
+            if case.get("via") == "get_function":
+                f = sb.get_function(case["fn"]) if case["api"] == "sandbox" else commands.get_function(case["fn"], **report_kw)
+                r = f(*args, **opts, **direct)
+            elif case["api"] != "sandbox":
+                r = commands.call(case["fn"], *args, **opts, **direct, **report_kw)
             else:
-                r = sb.call(case["fn"], *args, **opts, **kwargs)
+                r = sb.call(case["fn"], *args, **opts, **direct)
             escaped = None
         except BaseException as e:      # noqa
             r, escaped = None, type(e).__name__
@@ -449,7 +511,7 @@ def correspond_call(rng, tier, driver, res, n):
         src = dec_str(kv["src"])
         shown = src[len("_ = "):] if case["target"] == "_" and src.startswith("_ = ") else src
         # (the context record drops a leading "_ = " for display; the executed text is the model's `src`)
-        if shown != real["code"]:
+        if not same_call_text(shown, real["code"]):
             problems.append("generated call: model %r real %r" % (src[:120], (real["code"] or "")[:120]))
         res.count("call:temporaries=%d" % min(3, src.count(temp_prefix())))
         out = kv["out"]
@@ -536,10 +598,15 @@ def correspond(rng, tier, driver):
 # --------------------------------------------------------------------------
 # search
 
-def shrink(case, sig):
-    """Drop follow-up calls, then whole lines (keeping it parsable is CPython's problem: a candidate that changes
-    the verdict's signature is rejected)."""
+def shrink(case, sig, what="", seconds=8.0):
+    """Cut the steps after the failing one, drop follow-up calls, then whole lines (keeping it parsable is CPython's
+    problem: a candidate that changes the verdict's signature is rejected).  Wall-clock budget per failure."""
+    import re
+    deadline = time.time() + seconds
+
     def verdict(c):
+        if time.time() > deadline:
+            return None
         try:
             r = sc.run_reference([c])[0]
             if "timeout" in r or "harness_error" in r:
@@ -555,6 +622,16 @@ def shrink(case, sig):
     if not v or v[0] != sig:
         return case
     calls = list(cur.get("calls", []))
+    m = re.match(r"^(?:after call|call|step) (\d+) ", what or "")
+    if m and int(m.group(1)) < len(calls):
+        k = int(m.group(1))
+        for cand_calls in ([calls[k]], calls[:k + 1]):     # the failing step alone; nothing after the failing step
+            if len(cand_calls) < len(calls):
+                cand = dict(cur, calls=cand_calls)
+                v = verdict(cand)
+                if v and v[0] == sig:
+                    cur, calls = cand, cand["calls"]
+                    break
     for i in range(len(calls) - 1, -1, -1):
         cand = dict(cur, calls=calls[:i] + calls[i + 1:])
         v = verdict(cand)
@@ -572,7 +649,6 @@ def shrink(case, sig):
             cur, lines = cand, cand_lines
         i -= 1
     # sizes: the smallest value of each larger integer literal that still fails (bisection; shows where the boundary is)
-    import re
     done = 0
     for m in reversed(list(re.finditer(r"(?<![\w.'\"])\d{1,6}(?![\w.'\"])", cur["code"]))):     # last first: spans stay valid
         if done >= 3 or int(m.group()) < 4:
@@ -593,7 +669,7 @@ def shrink(case, sig):
     return cur
 
 
-def shrink_history(case, sig, what, budget=8):
+def shrink_history(case, sig, what, budget=6):
     """A call history is shrunk in FRESH processes only (in this one, whatever an earlier case left behind in pedal
     would let the priming call be dropped): cut everything after the failing step, then drop earlier steps one by one."""
     import re
@@ -631,7 +707,14 @@ def search(rng, tier, broken, corr):
                     "chain under the raising frame in 11 styles, inputs read, lines printed, line/prompt/literal length, "
                     "line of the error, globals, arguments, nested values, calls in sequence; far-beyond sizes too) and "
                     "over ODD TEXT (\\r, \\r\\n, the other line separators, NUL, escapes, non-BMP, whitespace-only / "
-                    "-terminated) in print arguments, sep, end, write(), prompts, replies, globals, returns, arguments",
+                    "-terminated) in print arguments, sep, end, write(), prompts, replies, globals, returns, arguments. "
+                    "Printed text is observed twice: the raw text and the LINE VIEW (Sandbox.output / get_output()), which "
+                    "must be plain CPython's text of each execution cut at its newlines only, right-stripped, one blank "
+                    "entry for blank-only text; both accumulated over the executions since the last clear_output(). Every "
+                    "case goes in through one of the public doors (command functions, command functions with report=, "
+                    "Sandbox methods) and one spelling of queueing the inputs / starting the run / passing the arguments "
+                    "(**kwargs, function_kwargs, args_locals, get_function, evaluate); observations come out through the "
+                    "same door",
             "evaluations": 0, "distinct_nontrivial": 0, "samples": [], "skipped": {}}
     cases = list(getattr(corr, "cases", None) or corpus_cases())
     n = (700 if tier == "quick" else 12000) * (2 if broken else 1)
@@ -648,7 +731,19 @@ def search(rng, tier, broken, corr):
     # the same object again after a change, the same call after the function / the program changed
     hist_cases, info["history_dimensions"] = shist.history_cases(rng, tier)
     cases += hist_cases
+    # the other public spellings laid over those streams (the corpus and what the correspondence already ran stay as they are)
+    for k, v in sapi.respell(lim_cases + comp_cases + hist_cases, rng, 0.3).items():
+        RESPELLED[k] = RESPELLED.get(k, 0) + v
+    # every public spelling of "run this program with these inputs" / "call this function with these arguments" /
+    # "what did it print": command functions with and without report=, Sandbox methods, function_kwargs, args_locals,
+    # get_function, evaluate; student parameters named like the wrappers' own parameters (read from the tree under test)
+    api_cases, info["api_dimensions"] = sapi.api_cases(rng, tier)
+    cases += api_cases
+    info["api_dimensions"]["respelled_cases_of_other_streams"] = dict(sorted(RESPELLED.items()))
+    t_ref = time.time()
     refs = sc.run_reference(cases)
+    info["seconds"] = {"reference": round(time.time() - t_ref, 1)}
+    t_loop = time.time()
     failures = {}
     nt = set()
     shrink_spent = 0.0
@@ -675,7 +770,7 @@ def search(rng, tier, broken, corr):
             continue
         nt.add((r["outcome"][0] if r["outcome"] else "normal", len(r["events"]) > 0, len(c.get("calls", [])) > 0))
         for tag in c.get("shape", []):
-            if tag.startswith(("limit:", "odd:", "odd-", "deep-chain", "compile:", "history:")):
+            if tag.startswith(("limit:", "odd:", "odd-", "deep-chain", "compile:", "history:", "api:")):
                 dim = ":".join(tag.split(":")[:2])
                 info.setdefault("evaluated_per_dimension", {})
                 info["evaluated_per_dimension"][dim] = info["evaluated_per_dimension"].get(dim, 0) + 1
@@ -698,7 +793,9 @@ def search(rng, tier, broken, corr):
             small = shrink_history(c, v[0], v[1]) if history_shrinks < 2 else c
             history_shrinks += 1
         else:
-            small = shrink(c, v[0]) if shrink_spent < (20 if tier == "quick" else 180) else c
+            # (once the budget is spent only the cheap cuts: nothing after the failing step, then the last calls)
+            small = shrink(c, v[0], v[1], (5.0 if tier == "quick" else 40.0)
+                           if shrink_spent < (12 if tier == "quick" else 180) else 1.5)
         shrink_spent += time.time() - t_sh
         r2 = sc.run_reference([small])[0]
         sb2 = sc.run_sandbox_guarded(small, 30)
@@ -714,11 +811,14 @@ def search(rng, tier, broken, corr):
             failures[key] = Failure(v[0], v[1] + " (seen only after the earlier cases of this run: pedal keeps state "
                                                  "between programs; a fresh process may not show it)",
                                     {"case": c, "plain": {}, "sandbox": {}})
+    info["seconds"]["sandbox_and_shrinking"] = round(time.time() - t_loop, 1)
+    info["seconds"]["shrinking"] = round(shrink_spent, 1)
     # the traced reference against the completely untouched interpreter
     sample = [c for c in cases if not c.get("limit")]
     sample = rng.sample(sample, min(len(sample), 40 if tier == "quick" else 1200))
     sample += rng.sample(lim_cases, min(len(lim_cases), 24 if tier == "quick" else 400))
     sample += rng.sample(comp_cases, min(len(comp_cases), 40 if tier == "quick" else 1500))
+    t_pure = time.time()
     by_code = {id(c): r for c, r in zip(cases, refs)}
     from concurrent.futures import ThreadPoolExecutor
     with ThreadPoolExecutor(max_workers=8) as ex:
@@ -739,6 +839,7 @@ def search(rng, tier, broken, corr):
             info.setdefault("reference_mismatch", []).append(
                 {"code": c["code"][:600], "pure": [p["out"][-120:], p["outcome"]],
                  "traced": [sc.plain_text(r["events"])[-120:], r["outcome"]]})
+    info["seconds"]["untouched_interpreter_cross_check"] = round(time.time() - t_pure, 1)
     info["pure_interpreter_cross_checks"] = len(sample)
     info["pure_interpreter_mismatches"] = mism
     if mism:
@@ -746,6 +847,8 @@ def search(rng, tier, broken, corr):
             mism, len(sample), info["reference_mismatch"][0]))
     info["distinct_nontrivial"] = len(nt)
     info["samples"] = [sc.describe_case(c) for c in cases[:2]]
+    if os.environ.get("VERIF_C06_TIMING"):
+        print("C06 search seconds: %r" % (info["seconds"],), file=sys.stderr)
     return list(failures.values()), info
 
 
